@@ -51,14 +51,17 @@ func determine(r klog.Record, b txt.Block) *style {
 			return nil
 		})
 	}
-	for _, l := range b.Lines() {
+	// Only the lines of the record itself exhibit its style; blank lines around it
+	// may contain arbitrary whitespace (and they might end differently).
+	recordLines, _, _ := b.SignificantLines()
+	for _, l := range recordLines {
 		if l.Indentation() != "" {
 			s.indentation.Set(l.Indentation())
 			break
 		}
 	}
-	if len(b.Lines()) > 0 && b.Lines()[0].LineEnding != "" {
-		s.lineEnding.Set(b.Lines()[0].LineEnding)
+	if len(recordLines) > 0 && recordLines[0].LineEnding != "" {
+		s.lineEnding.Set(recordLines[0].LineEnding)
 	}
 	return s
 }
